@@ -84,3 +84,69 @@ package engine
 //@   invariant it.l.Offset == l.Offset && it.l.Count == l.Count && it.r.Type == r.Type && sameSlice(it.r.Min, r.Min) && sameSlice(it.r.Max, r.Max)
 //@   invariant !reverse ==> firstLower(dbit, ghost(pos, dbit) - i, *r) && (forall a int :: ghost(pos, dbit) - i <= a && a < ghost(pos, dbit) ==> idxValidF(dbit, a, *r, *l))
 //@   invariant reverse ==> lastUpper(dbit, ghost(pos, dbit) + i, *r) && (forall a int :: ghost(pos, dbit) < a && a <= ghost(pos, dbit) + i ==> idxValidR(dbit, a, *r, *l))
+
+//@ lemma lemmaFwdLoop(it *RangeLimitedIterator) int
+//@   requires rliOK(it) && !it.reverse && it.step == 0 && it.l.Offset >= 0 && ghost(n, it.Iterator) < 4611686018427387904
+//@   ensures result == it.step && (result > 0 ==> ghost(pos, it.Iterator) == old(ghost(pos, it.Iterator)) + result)
+//@   ensures forall a int :: old(ghost(pos, it.Iterator)) <= a && a < old(ghost(pos, it.Iterator)) + result ==> 0 <= a && a < ghost(n, it.Iterator) && upperOK(it.Iterator, a, it.r)
+//@   ensures it.l.Count >= 0 ==> result <= it.l.Count
+//@   ensures (it.l.Count >= 0 && result == it.l.Count) || !(0 <= ghost(pos, it.Iterator) && ghost(pos, it.Iterator) < ghost(n, it.Iterator) && upperOK(it.Iterator, ghost(pos, it.Iterator), it.r))
+//@   modifies it.step, ghost(pos, it.Iterator)
+//@ loop 1
+//@   invariant rliOK(it) && !it.reverse && it.step == cnt && 0 <= cnt && cnt <= ghost(n, it.Iterator) + 1 && it.l.Offset >= 0
+//@   invariant cnt > 0 ==> ghost(pos, it.Iterator) == old(ghost(pos, it.Iterator)) + cnt
+//@   invariant cnt == 0 ==> ghost(pos, it.Iterator) == old(ghost(pos, it.Iterator))
+//@   invariant forall a int :: old(ghost(pos, it.Iterator)) <= a && a < old(ghost(pos, it.Iterator)) + cnt ==> 0 <= a && a < ghost(n, it.Iterator) && upperOK(it.Iterator, a, it.r)
+//@   invariant it.l.Count >= 0 ==> cnt <= it.l.Count
+//@   invariant it.Iterator == old(it.Iterator) && it.l.Count == old(it.l.Count) && it.r.Type == old(it.r.Type) && sameSlice(it.r.Max, old(it.r.Max)) && ghost(n, it.Iterator) == old(ghost(n, it.Iterator))
+
+//@ lemma lemmaRevLoop(it *RangeLimitedIterator) int
+//@   requires rliOK(it) && it.reverse && it.step == 0 && it.l.Offset >= 0 && ghost(n, it.Iterator) < 4611686018427387904
+//@   ensures result == it.step && (result > 0 ==> ghost(pos, it.Iterator) == old(ghost(pos, it.Iterator)) - result)
+//@   ensures forall a int :: old(ghost(pos, it.Iterator)) - result < a && a <= old(ghost(pos, it.Iterator)) ==> 0 <= a && a < ghost(n, it.Iterator) && lowerOK(it.Iterator, a, it.r)
+//@   ensures it.l.Count >= 0 ==> result <= it.l.Count
+//@   ensures (it.l.Count >= 0 && result == it.l.Count) || !(0 <= ghost(pos, it.Iterator) && ghost(pos, it.Iterator) < ghost(n, it.Iterator) && lowerOK(it.Iterator, ghost(pos, it.Iterator), it.r))
+//@   modifies it.step, ghost(pos, it.Iterator)
+//@ loop 1
+//@   invariant rliOK(it) && it.reverse && it.step == cnt && 0 <= cnt && cnt <= ghost(n, it.Iterator) + 1 && it.l.Offset >= 0
+//@   invariant cnt > 0 ==> ghost(pos, it.Iterator) == old(ghost(pos, it.Iterator)) - cnt
+//@   invariant cnt == 0 ==> ghost(pos, it.Iterator) == old(ghost(pos, it.Iterator))
+//@   invariant forall a int :: old(ghost(pos, it.Iterator)) - cnt < a && a <= old(ghost(pos, it.Iterator)) ==> 0 <= a && a < ghost(n, it.Iterator) && lowerOK(it.Iterator, a, it.r)
+//@   invariant it.l.Count >= 0 ==> cnt <= it.l.Count
+//@   invariant it.Iterator == old(it.Iterator) && it.l.Count == old(it.l.Count) && it.r.Type == old(it.r.Type) && sameSlice(it.r.Min, old(it.r.Min)) && ghost(n, it.Iterator) == old(ghost(n, it.Iterator))
+
+// ---- counter merge operator: wrapping 64-bit addition of little-endian operands (bv mode: exact machine arithmetic) ----
+//@ spec le64(b []byte, p int) uint64 = uint64(b[p+7])*72057594037927936 + uint64(b[p+6])*281474976710656 + uint64(b[p+5])*1099511627776 + uint64(b[p+4])*4294967296 + uint64(b[p+3])*16777216 + uint64(b[p+2])*65536 + uint64(b[p+1])*256 + uint64(b[p])
+//@ spec counterVal(b []byte) uint64 = ite(len(b) == 0, uint64(0), le64(b, 0))
+
+//@ func GetRocksdbUint64(v []byte, err error) (uint64, error)
+//@   mode bv
+//@   ensures err != nil ==> result1 == err && result0 == 0
+//@   ensures err == nil ==> (result1 == nil <==> (len(v) == 0 || len(v) == 8))
+//@   ensures err == nil && result1 == nil ==> result0 == counterVal(v)
+
+//@ func (m *Uint64AddMerger) MergeNewer(value []byte) error
+//@   mode bv
+//@   requires m != nil && (m.buf == nil || len(m.buf) == 8) && disjoint(m.buf, value)
+//@   ensures result == nil <==> (len(value) == 0 || len(value) == 8)
+//@   ensures result == nil ==> len(m.buf) == 8 && le64(m.buf, 0) == old(counterVal(m.buf)) + counterVal(value)
+//@   ensures result != nil ==> sameSlice(m.buf, old(m.buf))
+//@   ensures old(m.buf) != nil ==> sameSlice(m.buf, old(m.buf))
+//@   ensures old(m.buf) == nil && result == nil ==> fresh(m.buf)
+//@   modifies m.buf, m.buf[0:8]
+
+//@ func (m *Uint64AddMerger) MergeOlder(value []byte) error
+//@   mode bv
+//@   requires m != nil && (m.buf == nil || len(m.buf) == 8) && disjoint(m.buf, value)
+//@   ensures result == nil <==> (len(value) == 0 || len(value) == 8)
+//@   ensures result == nil ==> len(m.buf) == 8 && le64(m.buf, 0) == old(counterVal(m.buf)) + counterVal(value)
+//@   ensures old(m.buf) != nil ==> sameSlice(m.buf, old(m.buf))
+//@   ensures old(m.buf) == nil && result == nil ==> fresh(m.buf)
+//@   modifies m.buf, m.buf[0:8]
+
+// merging operands in either order, through MergeNewer or MergeOlder, gives the same counter
+//@ lemma lemmaMergeOrderIndependent(a []byte, b []byte) (uint64, uint64, error, error)
+//@   mode bv
+//@   requires (len(a) == 0 || len(a) == 8) && (len(b) == 0 || len(b) == 8)
+//@   ensures result2 == nil && result3 == nil && result0 == result1 && result0 == counterVal(a) + counterVal(b)
+//@   modifies *
